@@ -53,6 +53,9 @@ def jobs(tier):
             kfs = ["own", "default", "tilde"] if W.catalogue()[leaf][0]["k"] == "Secure" or "secure" in leaf else ["own"]
             for kf in kfs:
                 out.append({"name": "%s/%s/%s" % (sh, leaf, kf), "shape": sh, "leaf": leaf, "depth": b["depth"], "tier": tier, "keyfile": kf})
+    for sh in ("nested+late", "cfglist+late"):
+        for leaf in ["int09", "bytes", "secure-aes", "list-bytes", "dict-typed"]:
+            out.append({"name": "%s/%s/own" % (sh, leaf), "shape": sh, "leaf": leaf, "depth": b["depth"], "tier": tier, "keyfile": "own"})
     return out + deep_jobs(tier)
 
 
